@@ -9,8 +9,10 @@ package align
 
 import (
 	"fmt"
+	"math/rand"
 	"os"
 	"sort"
+	"strconv"
 	"testing"
 
 	"github.com/biogo/biogo/alphabet"
@@ -435,6 +437,64 @@ func verifRun(t *testing.T, which string) {
 			}
 		}
 	}
+	// a seeded random pass over longer sequences (lengths 4..6 over four letters): runs of two or more gaps, several
+	// blocks and ties between distant cells do not occur in the exhaustive scope above
+	seed, _ := strconv.Atoi(os.Getenv("VERIF_SEED"))
+	rnd := rand.New(rand.NewSource(int64(seed) + 8))
+	perConfig := 60
+	if os.Getenv("VERIF_TIER") == "thorough" {
+		perConfig = 400
+	}
+	randomCases := 0
+	randWord := func() string {
+		b := make([]byte, 4+rnd.Intn(3))
+		for i := range b {
+			b[i] = "acgt"[rnd.Intn(4)]
+		}
+		return string(b)
+	}
+	for _, al := range verifAligners {
+		os := []int{0}
+		if al.affine {
+			os = opens
+		}
+		for _, nm := range verifMatrices() {
+			for _, open := range os {
+				mod := verifModel{m: nm.m, open: open, affine: al.affine}
+				for n := 0; n < perConfig; n++ {
+					rw, qw := randWord(), randWord()
+					if n%3 == 0 {
+						// related sequences: the query is the reference with a deletion of two letters
+						at := rnd.Intn(len(rw) - 2)
+						qw = rw[:at] + rw[at+2:]
+					}
+					cases++
+					randomCases++
+					c08, c09 := verifCheck(al, mod, rw, qw)
+					err := c08
+					if which == "C09" {
+						err = c09
+					}
+					if err == nil {
+						nontrivial++
+						continue
+					}
+					if d, ok := err.(*verifDeviation); ok && d.finding != "" {
+						if findings[d.finding] == 0 {
+							examples[d.finding] = fmt.Sprintf("%s matrix %s gap-open %d reference %s query %s: %v", al.name, nm.name, open, rw, qw, err)
+						}
+						findings[d.finding]++
+						continue
+					}
+					key := al.name + "|" + nm.name + "|" + verifClass(err)
+					if !seen[key] {
+						seen[key] = true
+						t.Errorf("%s matrix %s gap-open %d reference %q query %q: %v", al.name, nm.name, open, rw, qw, err)
+					}
+				}
+			}
+		}
+	}
 	var ids []string
 	for id := range findings {
 		ids = append(ids, id)
@@ -443,7 +503,7 @@ func verifRun(t *testing.T, which string) {
 	for _, id := range ids {
 		fmt.Printf("FINDING id=%s cases=%d example=%q\n", id, findings[id], examples[id])
 	}
-	fmt.Printf("BOUNDED name=%s.aligners cases=%d nontrivial=%d exhaustive=true domain=\"all six aligners (plain and quality letters), every pair of sequences of length 1..%d over %q, %d matrices (ties, asymmetric, zero gaps, harsh mismatch, cheap asymmetric gaps), gap-open in %v; oracle enumerates every alignment path\"\n", which, cases, nontrivial, maxLen, letters, len(verifMatrices()), opens)
+	fmt.Printf("BOUNDED name=%s.aligners cases=%d nontrivial=%d exhaustive=true domain=\"all six aligners (plain and quality letters), every pair of sequences of length 1..%d over %q, %d matrices (ties, asymmetric, zero gaps, harsh mismatch, cheap asymmetric gaps), gap-open in %v, plus %d seeded random pairs of length 4..6 over four letters (a third of them one sequence with two letters deleted); oracle enumerates every alignment path\"\n", which, cases, nontrivial, maxLen, letters, len(verifMatrices()), opens, randomCases)
 }
 
 // TestVerifBounded_C08_Optimal: the returned alignment's total score is the optimum of its class.
